@@ -270,10 +270,12 @@ def e2e_case(draw):
         for _ in range(draw(st.integers(lo, hi))):
             lines.append(' '.join(draw(st.lists(st.sampled_from(E2E_WORDS), min_size=1, max_size=4))))
         return '\n'.join(lines)
-    shape = draw(st.sampled_from(['stdout', 'value', 'both', 'both']))
+    shape = draw(st.sampled_from(['stdout', 'value', 'both', 'both', 'two_prints', 'two_prints']))
     out = text(1, 3) if shape != 'value' else ''
     val = text(1, 2) if shape != 'stdout' else ''
-    full = {'stdout': out, 'value': val, 'both': out + '\n' + val}[shape]
+    # two_prints: the output comes from two parts (xdoctest gives the last expression statement a part of its own and lets the
+    # want describe it together with the still unmatched output before it)
+    full = {'stdout': out, 'value': val, 'both': out + '\n' + val, 'two_prints': out + '\n' + val}[shape]
     # want: the full text with 0-2 substrings replaced by '...', then possibly damaged
     n = len(full)
     k = draw(st.integers(0, 2))
@@ -286,8 +288,14 @@ def e2e_case(draw):
         pos = b
     want.append(full[pos:])
     want = ''.join(want)
-    mode = draw(st.sampled_from(['keep', 'keep', 'drop_tail', 'mutate', 'dup_piece']))
-    if mode == 'drop_tail' and len(want) > 2:
+    mode = draw(st.sampled_from(['keep', 'keep', 'drop_tail', 'mutate', 'dup_piece', 'bare', 'lead']))
+    if mode == 'bare':
+        # the whole want is the three dots (the "whatever it prints" idiom): a wildcard only while ELLIPSIS is on
+        want = draw(st.sampled_from(['...', '...', '...  ', '......', '....']))
+    elif mode == 'lead' and len(full) > 1:
+        # a want that opens with the wildcard: the literal rest may begin anywhere in the output, earlier parts included
+        want = '...' + full[draw(st.integers(1, len(full) - 1)):]
+    elif mode == 'drop_tail' and len(want) > 2:
         want = want[:-draw(st.integers(1, min(3, len(want) - 1)))]
     elif mode == 'mutate' and want:
         i = draw(st.integers(0, len(want) - 1))
@@ -303,8 +311,11 @@ def want_is_writable(want):
     lines = want.split('\n')
     if not want.strip() or any(not ln.strip() for ln in lines):
         return False                       # a blank line would end the want
-    if any(ln.lstrip().startswith(('>>>', '...')) for ln in lines[:1]):
-        return False                       # would be read as source
+    if len(lines) == 1 and len(want.strip()) >= 3 and set(want.strip()) == {'.'} and want.startswith('...'):
+        return True                        # dots only, after a complete statement: a want
+    first = lines[0].lstrip()
+    if first.startswith('>>>') or first.startswith('... ') or first.rstrip() == '...':
+        return False                       # would be read as source ('...x', dots directly followed by text, is a want line)
     if any(ln.lstrip().startswith('>>>') for ln in lines):
         return False
     return True
@@ -324,10 +335,13 @@ def check_doctest_case(case, ctx):
     elif shape == 'value':
         stmt = '>>> R({!r})'.format(val)
         alts = [val]
+    elif shape == 'two_prints':
+        stmt = '>>> print({!r})\n>>> print({!r})'.format(out, val)
+        alts = [val + '\n', out + '\n' + val + '\n']
     else:
         stmt = '>>> print({!r}) or R({!r})'.format(out, val)
         alts = [out + '\n', val, out + '\n' + val + '\n']
-    doc = '\n'.join([ln.format(sign='+' if case['ellipsis'] else '-') for ln in DOC_HEAD] + [stmt] + want.split('\n')) + '\n'
+    doc = '\n'.join([ln.format(sign='+' if case['ellipsis'] else '-') for ln in DOC_HEAD] + stmt.split('\n') + want.split('\n')) + '\n'
     nw = _norm(want)
     may_pass = any((True in (ref.verdicts(_norm(g), nw) if case['ellipsis'] else {_norm(g) == nw})) or g == want for g in alts)
     must_pass = any((ref.verdicts(_norm(g), nw) == {True} if case['ellipsis'] else _norm(g) == nw) or g == want for g in alts)
